@@ -58,12 +58,12 @@ pf_quick = [
     inst("n0_pub", SB_HAS_CAL=1, SB_HAS_PUB=1, C04_NPUB=0),
     inst("n1_pub", SB_HAS_CAL=1, SB_HAS_PUB=1, C04_NPUB=1),
     inst("n2_pub", SB_HAS_CAL=1, SB_HAS_PUB=1, C04_NPUB=2),
-    inst("n2_pub_32_20", SB_HAS_CAL=1, SB_HAS_PUB=1, C04_NPUB=2, SB_PUBALG=-32, C04_PF_ALG="{-20,-32,-20}"),
     inst("n2_nocal", SB_HAS_CAL=0, SB_HAS_PUB=0, C04_NPUB=2),
     inst("n2_calnoaggr", SB_HAS_CAL=1, SB_CAL_HAS_AGGRTIME=0, SB_HAS_PUB=0, C04_NPUB=2),
     inst("n1_pub_download", SB_HAS_CAL=1, SB_HAS_PUB=1, C04_NPUB=1, C04_PF_USER=0),
 ]
 pf_thorough = pf_quick + [
+    inst("n2_pub_32_20", SB_HAS_CAL=1, SB_HAS_PUB=1, C04_NPUB=2, SB_PUBALG=-32, C04_PF_ALG="{-20,-32,-20}"),
     inst("n3_pub", SB_HAS_CAL=1, SB_HAS_PUB=1, C04_NPUB=3),
     inst("n3_pub_32", SB_HAS_CAL=1, SB_HAS_PUB=1, C04_NPUB=3, SB_PUBALG=-32, C04_PF_ALG="{-32,-32,-32}", C04_PF_ALG0=-32),
     inst("n3_nocal", SB_HAS_CAL=0, SB_HAS_PUB=0, C04_NPUB=3),
@@ -81,30 +81,33 @@ H.append({
 })
 
 # ---------------------------------------------------------------- fetching rules (extender seam)
+EXT_QUICK = [
+    inst("head_nocal", RULE=0, SB_HAS_CAL=0),
+    inst("head_noreply", RULE=0, SB_HAS_CAL=0, REPLY_PRESENT=0),
+    inst("head_nochain", RULE=0, SB_HAS_CAL=0, C04_EXT_HAS_CHAIN=0, STALE_CHAIN=1),
+    inst("same_cal", RULE=1, SB_HAS_CAL=1, STALE_CHAIN=1),
+    inst("same_calnoaggr", RULE=1, SB_HAS_CAL=1, SB_CAL_HAS_AGGRTIME=0),
+    inst("pf_n2_cal", RULE=2, SB_HAS_CAL=1, C04_NPUB=2),
+    inst("pf_n2_nocal", RULE=2, SB_HAS_CAL=0, C04_NPUB=2),
+    inst("up_nocal", RULE=3, SB_HAS_CAL=0, C04_USERPUB=1),
+    inst("up_cal", RULE=3, SB_HAS_CAL=1, C04_USERPUB=1),
+    inst("up_notime", RULE=3, SB_HAS_CAL=0, C04_USERPUB=2),
+]
+EXT_MORE = [
+    inst("head_nostatus", RULE=0, SB_HAS_CAL=0, C04_EXT_HAS_STATUS=0),
+    inst("same_nocal", RULE=1, SB_HAS_CAL=0),
+    inst("pf_n0_nocal", RULE=2, SB_HAS_CAL=0, C04_NPUB=0),
+    inst("up_none", RULE=3, SB_HAS_CAL=0, C04_USERPUB=0),
+]
 H.append({
     "name": "h_ext", "src": "h_ext.c", "env": ENV + ["ext_seam"], "tus": RULE_TUS + ["types", "tlv"], "extra_src": ["x_net_real.c"],
     "unwind": 6, "unwindset": ["KSI_TLV_free:3"], "timeout": 300, "mem_gb": 8, "object_bits": 12,
-    "restrict_fp": ["KSI_List_free.function_pointer_call.1/KSI_HashChainLink_free"], "cbmc_flags": ["--slice-formula"],
+    "restrict_fp": ["KSI_List_free.function_pointer_call.1/KSI_HashChainLink_free"],
     "functions": ["receiveCalendarHashChain", "KSI_VerificationRule_ExtendSignatureCalendarChainInputHashToHead", "KSI_VerificationRule_ExtendSignatureCalendarChainInputHashToSamePubTime",
                   "KSI_VerificationRule_PublicationsFileExtendToPublication", "KSI_VerificationRule_UserProvidedPublicationExtendToPublication",
                   "KSI_createExtendRequest", "KSI_convertExtenderStatusCode", "isFatalError", "KSI_PublicationsFile_getNearestPublication", "KSI_ExtendResp_free", "KSI_ExtendReq_free"],
     "bound": "per fetching rule: signature with / without calendar chain (with / without aggregation-time element), reply absent / present with or without status and chain (1 link), publications file of 0..2 records, user publication complete / without time / absent; every transport status, the extender status code (64 bit), both request ids and all times symbolic; the element destructor reached through KSI_List_free is restricted to KSI_HashChainLink_free (goto-instrument inserts the proof obligation)",
-    "instances": [
-        inst("head_nocal", RULE=0, SB_HAS_CAL=0),
-        inst("head_noreply", RULE=0, SB_HAS_CAL=0, REPLY_PRESENT=0),
-        inst("head_nochain", RULE=0, SB_HAS_CAL=0, C04_EXT_HAS_CHAIN=0, STALE_CHAIN=1),
-        inst("head_nostatus", RULE=0, SB_HAS_CAL=0, C04_EXT_HAS_STATUS=0),
-        inst("same_cal", RULE=1, SB_HAS_CAL=1, STALE_CHAIN=1),
-        inst("same_calnoaggr", RULE=1, SB_HAS_CAL=1, SB_CAL_HAS_AGGRTIME=0),
-        inst("same_nocal", RULE=1, SB_HAS_CAL=0),
-        inst("pf_n2_cal", RULE=2, SB_HAS_CAL=1, C04_NPUB=2),
-        inst("pf_n0_nocal", RULE=2, SB_HAS_CAL=0, C04_NPUB=0),
-        inst("pf_n2_nocal", RULE=2, SB_HAS_CAL=0, C04_NPUB=2),
-        inst("up_nocal", RULE=3, SB_HAS_CAL=0, C04_USERPUB=1),
-        inst("up_cal", RULE=3, SB_HAS_CAL=1, C04_USERPUB=1),
-        inst("up_notime", RULE=3, SB_HAS_CAL=0, C04_USERPUB=2),
-        inst("up_none", RULE=3, SB_HAS_CAL=0, C04_USERPUB=0),
-    ],
+    "instances": EXT_QUICK, "thorough": {"instances": EXT_QUICK + EXT_MORE, "timeout": 900},
 })
 
 # ---------------------------------------------------------------- comparison rules
@@ -115,31 +118,33 @@ def cmp_instances(thorough):
           inst("cal_ti_c1_e2", GROUP=0, PARTS=33, SB_HAS_CAL=1, SB_CAL_NLINKS=1, C04_EXT_NLINKS=2),
           inst("cal_ti_c1_e1_noaggr", GROUP=0, PARTS=33, SB_HAS_CAL=1, SB_CAL_NLINKS=1, C04_EXT_NLINKS=1, C04_EXT_HAS_AGGRTIME=0)]
     # right links: direction patterns concrete (bit l = link l is a left link)
-    pats = [(1, 1, s, e) for s in range(2) for e in range(2)]
+    pats = [(1, 1, 0, 0), (1, 1, 0, 1), (1, 1, 1, 1)]
     if thorough:
-        pats += [(2, 2, s, e) for s in range(4) for e in range(4)] + [(1, 2, s, e) for s in range(2) for e in range(4)] + [(3, 3, 2, 2), (3, 3, 5, 3), (3, 2, 0, 0), (3, 3, 0, 0), (2, 3, 1, 4)]
+        pats += [(1, 1, 1, 0)] + [(2, 2, s, e) for s in range(4) for e in range(4)] + [(1, 2, s, e) for s in range(2) for e in range(4)] + [(3, 3, 2, 2), (3, 3, 5, 3), (3, 2, 0, 0), (3, 3, 0, 0), (2, 3, 1, 4)]
     else:
-        pats += [(2, 2, 0, 0), (2, 2, 3, 3), (2, 2, 1, 2), (2, 2, 2, 2), (2, 2, 0, 1), (1, 2, 0, 2)]
+        pats += [(2, 2, 1, 2), (1, 2, 0, 2)]
     for (ns, ne, s, e) in pats:
         L.append(inst("cal_rl_c%d_e%d_d%d_%d" % (ns, ne, s, e), GROUP=0, PARTS=2, SB_HAS_CAL=1, SB_CAL_NLINKS=ns, C04_EXT_NLINKS=ne, SIG_DIRS=s, C04_EXT_DIRS=e,
                       SIG_NRIGHT=nright(s, ns), EXT_NRIGHT=nright(e, ne)))
     # root hash
-    rp = [(1, 1, 0, 0), (1, 1, 1, 0), (2, 2, 1, 2)]
+    rp = [(1, 1, 0, 0), (1, 2, 0, 1)]
     if thorough:
-        rp += [(1, 1, 0, 1), (1, 1, 1, 1), (2, 2, 0, 3), (2, 1, 2, 1), (3, 3, 5, 2)]
+        rp += [(1, 1, 1, 0), (1, 1, 0, 1), (1, 1, 1, 1), (2, 2, 1, 2), (2, 2, 0, 3), (2, 1, 2, 1), (3, 3, 5, 2)]
     for (ns, ne, s, e) in rp:
         L.append(inst("cal_root_c%d_e%d_d%d_%d" % (ns, ne, s, e), GROUP=0, PARTS=4, SB_HAS_CAL=1, SB_CAL_NLINKS=ns, C04_EXT_NLINKS=ne, SIG_DIRS=s, C04_EXT_DIRS=e))
     L.append(inst("cal_unbuffered", GROUP=0, SB_HAS_CAL=1, BUFFERED=0))
     for g, name, extra in ((1, "up", {"C04_USERPUB": 1}), (2, "pf", {"C04_NPUB": 2})):
-        hp = [(1, 0), (1, 1), (2, 2)] + ([(2, 1), (3, 5)] if thorough else [])
+        hp = [(1, g - 1)] + ([(1, 2 - g), (2, 2), (2, 1), (3, 5)] if thorough else [])
         for (ne, e) in hp:
             L.append(inst("%s_hash_e%d_d%d" % (name, ne, e), GROUP=g, PARTS=8, SB_HAS_CAL=0, C04_EXT_NLINKS=ne, C04_EXT_DIRS=e, **extra))
         L.append(inst("%s_ti_e1" % name, GROUP=g, PARTS=48, SB_HAS_CAL=0, C04_EXT_NLINKS=1, **extra))
         L.append(inst("%s_ti_cal_e2" % name, GROUP=g, PARTS=48, SB_HAS_CAL=1, C04_EXT_NLINKS=2, **extra))
-        L.append(inst("%s_ti_calnoaggr_e1" % name, GROUP=g, PARTS=48, SB_HAS_CAL=1, SB_CAL_HAS_AGGRTIME=0, C04_EXT_NLINKS=1, **extra))
+        if thorough:
+            L.append(inst("%s_ti_calnoaggr_e1" % name, GROUP=g, PARTS=48, SB_HAS_CAL=1, SB_CAL_HAS_AGGRTIME=0, C04_EXT_NLINKS=1, **extra))
         L.append(inst("%s_ti_e1_noaggr" % name, GROUP=g, PARTS=48, SB_HAS_CAL=0, C04_EXT_NLINKS=1, C04_EXT_HAS_AGGRTIME=0, **extra))
         L.append(inst("%s_unbuffered" % name, GROUP=g, SB_HAS_CAL=0, BUFFERED=0, **extra))
-    L.append(inst("pf_ti_n1_e1", GROUP=2, PARTS=48, SB_HAS_CAL=0, C04_NPUB=1, C04_EXT_NLINKS=1))
+    if thorough:
+        L.append(inst("pf_ti_n1_e1", GROUP=2, PARTS=48, SB_HAS_CAL=0, C04_NPUB=1, C04_EXT_NLINKS=1))
     L.append(inst("up_hash_noimprint", GROUP=1, PARTS=8, SB_HAS_CAL=0, C04_USERPUB=3, C04_EXT_NLINKS=1, C04_EXT_DIRS=1))
     if thorough:
         L.append(inst("pf_ti_n3_e1", GROUP=2, PARTS=48, SB_HAS_CAL=0, C04_NPUB=3, C04_EXT_NLINKS=1))
@@ -156,12 +161,30 @@ H.append({
                   "KSI_VerificationRule_UserProvidedPublicationExtendedSignatureInputHash", "KSI_VerificationRule_PublicationsFilePublicationHashMatchesExtenderResponse",
                   "KSI_VerificationRule_PublicationsFilePublicationTimeMatchesExtenderResponse", "KSI_VerificationRule_PublicationsFileExtendedSignatureInputHash",
                   "getExtendedCalendarHashChain", "getNextLink", "initAggregationOutputHash", "KSI_CalendarHashChain_aggregate", "KSI_AggregationHashChainList_aggregate", "KSI_DataHash_equals"],
-    "bound": "one aggregation chain of one link; signature calendar chain and extender chain of 1..2 links each (thorough: up to 3; all SHA-1 sized imprints); direction patterns enumerated where they select the links compared / hashed (quick: all 4 for 1+1 links and 7 of the longer ones; thorough: all 16 for 2+2 and more), symbolic elsewhere; aggregation-time elements present / absent, publications file of 1..2 (thorough 3) records, user publication complete / without imprint; all times (64 bit), level corrections, imprints and the digests returned by the hash model symbolic",
+    "bound": "one aggregation chain of one link; signature calendar chain and extender chain of 1..2 links each (thorough: up to 3; all SHA-1 sized imprints); direction patterns enumerated where they select the links compared / hashed (quick: all 4 for 1+1 links and a few longer ones; thorough: all 16 for 2+2 and more), symbolic elsewhere; aggregation-time elements present / absent, publications file of 1..2 (thorough 3) records, user publication complete / without imprint; all times (64 bit), level corrections, imprints and the digests returned by the hash model symbolic",
     "instances": cmp_instances(False), "thorough": {"instances": cmp_instances(True), "timeout": 900},
 })
 
 # ---------------------------------------------------------------- key based rules
 key_common = dict(SB_HAS_CAL=1, SB_HAS_AUTH=1)
+KEY_QUICK = [
+    inst("exist_c0", PARTS=1, C04_NCERT=0, **key_common),
+    inst("exist_c2", PARTS=1, C04_NCERT=2, **key_common),
+    inst("exist_noauth", PARTS=1, C04_NCERT=1, SB_HAS_CAL=1, SB_HAS_AUTH=0),
+    inst("exist_c1_download", PARTS=1, C04_NCERT=1, C04_PF_USER=0, **key_common),
+    inst("valid_c1", PARTS=2, C04_NCERT=1, **key_common),
+    inst("valid_c1_calnoaggr", PARTS=2, C04_NCERT=1, SB_CAL_HAS_AGGRTIME=0, **key_common),
+    inst("sig_c1", PARTS=4, C04_NCERT=1, **key_common),
+    inst("sig_c2", PARTS=4, C04_NCERT=2, **key_common),
+    inst("sig_c0", PARTS=4, C04_NCERT=0, **key_common),
+]
+KEY_MORE = [
+    inst("exist_c2_len34", PARTS=1, C04_NCERT=2, C04_CERTID_LEN="{3,4}", **key_common),
+    inst("exist_nocal", PARTS=1, C04_NCERT=1, SB_HAS_CAL=0, SB_HAS_AUTH=0),
+    inst("valid_c2", PARTS=2, C04_NCERT=2, **key_common),
+    inst("valid_c1_download", PARTS=2, C04_NCERT=1, C04_PF_USER=0, **key_common),
+    inst("sig_c1_flags60", PARTS=4, C04_NCERT=1, RAW_FLAGS="0x60", **key_common),
+]
 H.append({
     "name": "h_key", "src": "h_key.c", "env": ENV + ["ext_seam", "pki_model"], "tus": RULE_TUS + ["types", "tlv", "fast_tlv"],
     "unwind": 6, "unwindset": ["KSI_TLV_free:4", "KSI_TLV_writeBytes.0:40", "serializeTlv:4"], "timeout": 300, "mem_gb": 8, "object_bits": 12,
@@ -170,39 +193,24 @@ H.append({
                   "KSI_VerificationRule_CertificateExistence", "KSI_VerificationRule_CertificateValidity", "KSI_VerificationRule_CalendarAuthenticationRecordSignatureVerification",
                   "KSI_PublicationsFile_getPKICertificateById", "KSI_OctetString_equals", "KSI_TLV_serialize", "initPublicationsFile"],
     "bound": "publications file with 0..2 certificate records, certificate ids of 4 (or 3 vs 4) bytes, calendar chain with / without aggregation-time element, published data TLV of 31 bytes (4-byte time, SHA-1 sized imprint), signature value of 4 bytes; ids, validity times (64 bit), calendar times, published-data bytes, flags, oracle verdict and download statuses symbolic",
-    "instances": [
-        inst("exist_c0", PARTS=1, C04_NCERT=0, **key_common),
-        inst("exist_c2", PARTS=1, C04_NCERT=2, **key_common),
-        inst("exist_c2_len34", PARTS=1, C04_NCERT=2, C04_CERTID_LEN="{3,4}", **key_common),
-        inst("exist_noauth", PARTS=1, C04_NCERT=1, SB_HAS_CAL=1, SB_HAS_AUTH=0),
-        inst("exist_nocal", PARTS=1, C04_NCERT=1, SB_HAS_CAL=0, SB_HAS_AUTH=0),
-        inst("exist_c1_download", PARTS=1, C04_NCERT=1, C04_PF_USER=0, **key_common),
-        inst("valid_c1", PARTS=2, C04_NCERT=1, **key_common),
-        inst("valid_c2", PARTS=2, C04_NCERT=2, **key_common),
-        inst("valid_c1_calnoaggr", PARTS=2, C04_NCERT=1, SB_CAL_HAS_AGGRTIME=0, **key_common),
-        inst("valid_c1_download", PARTS=2, C04_NCERT=1, C04_PF_USER=0, **key_common),
-        inst("sig_c1", PARTS=4, C04_NCERT=1, **key_common),
-        inst("sig_c2", PARTS=4, C04_NCERT=2, **key_common),
-        inst("sig_c0", PARTS=4, C04_NCERT=0, **key_common),
-        inst("sig_c1_flags60", PARTS=4, C04_NCERT=1, RAW_FLAGS="0x60", **key_common),
-    ],
+    "instances": KEY_QUICK, "thorough": {"instances": KEY_QUICK + KEY_MORE, "timeout": 900},
 })
 
 # ---------------------------------------------------------------- end to end (extension paths)
 T = dict(AGGR_TIME=1000, ANCHOR_TIME=2000)
 E2E_QUICK = [inst("cal_head", GROUP=0, C04_EXT_DIRS=0), inst("cal_status", GROUP=0, EXCH=3),
-             inst("user_sametime", GROUP=1, AGGR_TIME=1000, ANCHOR_TIME=1000), inst("user_earlier", GROUP=1, AGGR_TIME=1000, ANCHOR_TIME=999),
+             inst("user_sametime", GROUP=1, AGGR_TIME=1000, ANCHOR_TIME=1000),
              inst("pubfile_earlier", GROUP=2, AGGR_TIME=1000, ANCHOR_TIME=999),
              inst("user_neterr", GROUP=1, EXCH=1, **T), inst("pubfile_oom", GROUP=2, EXCH=2, **T)]
 # a successful exchange followed by all comparisons in one run: 2-4 min each (11.8M variables) - thorough tier only
-E2E_SLOW = [inst("user_l", GROUP=1, C04_EXT_DIRS=1, **T), inst("user_r", GROUP=1, C04_EXT_DIRS=0, AGGR_TIME=1000, ANCHOR_TIME=1001),
+E2E_SLOW = [inst("user_earlier", GROUP=1, AGGR_TIME=1000, ANCHOR_TIME=999), inst("user_l", GROUP=1, C04_EXT_DIRS=1, **T), inst("user_r", GROUP=1, C04_EXT_DIRS=0, AGGR_TIME=1000, ANCHOR_TIME=1001),
             inst("pubfile_l", GROUP=2, C04_EXT_DIRS=1, AGGR_TIME=1000, ANCHOR_TIME=1000)]
 # (a reply with another request id, EXCH=4, makes symex follow both outcomes of the id comparison: > 30 min; that case is h_ext's subject)
 H.append({
     "name": "h_e2e", "src": "h_e2e.c", "env": ENV + ["ext_seam"], "tus": ["verification_rule", "signature", "hashchain", "hash", "publicationsfile", "types", "tlv"],
     "extra_src": ["x_net_real.c"], "global_defines": ["SB_INALG={0,0,0}", "SB_SIBALG={{0,0,0},{0,0,0},{0,0,0}}"],
     "unwind": 3, "unwindset": ["KSI_TLV_free:3", "Rule_verify.0:9", "Rule_verify:7", "KSI_List_free:2", "KSI_HashChainLink_free:2"], "timeout": 600, "mem_gb": 8, "object_bits": 12,
-    "cbmc_flags": ["--slice-formula"],     # no restrict_fp here: goto-instrument's pass makes the hasher's function pointers non-constant for symex
+    # no restrict_fp here: goto-instrument's pass makes the hasher's function pointers non-constant for symex
     "functions": ["Rule_verify", "calendarHashChainRule_cal", "userProvidedPublicationBasedRules", "publicationRecordRule_pubFile", "receiveCalendarHashChain",
                   "KSI_VerificationRule_UserProvidedPublicationExtendToPublication", "KSI_VerificationRule_UserProvidedPublicationHashMatchesExtendedResponse",
                   "KSI_VerificationRule_UserProvidedPublicationTimeMatchesExtendedResponse", "KSI_VerificationRule_UserProvidedPublicationExtendedSignatureInputHash",
@@ -212,6 +220,21 @@ H.append({
 })
 
 # ---------------------------------------------------------------- deprecated-algorithm rules
+DEPR_QUICK = [
+    inst("sig_l_sha1", ON_EXT=0, SB_HAS_CAL=1, SB_CAL_NLINKS=1, SIG_DIRS=1, SB_CAL_SIBALG="{0,0,0,0}", HAS_SHA1_LEFT=1),
+    inst("sig_lrl_256_sha1_sha1", ON_EXT=0, SB_HAS_CAL=1, SB_CAL_NLINKS=3, SIG_DIRS=5, SB_CAL_SIBALG="{1,0,0,0}", HAS_SHA1_LEFT=1),
+    inst("sig_rl_sha1_256", ON_EXT=0, SB_HAS_CAL=1, SB_CAL_NLINKS=2, SIG_DIRS=2, SB_CAL_SIBALG="{0,1,0,0}", HAS_SHA1_LEFT=0),
+    inst("sig_nocal", ON_EXT=0, SB_HAS_CAL=0, HAS_SHA1_LEFT=0),
+    inst("ext_lr_256_sha1_l_sha1", ON_EXT=1, C04_USERPUB=1, C04_EXT_NLINKS=3, C04_EXT_DIRS=5, C04_EXT_SIBALG="{1,0,0,0}", HAS_SHA1_LEFT=1),
+    inst("ext_unbuffered", ON_EXT=1, C04_USERPUB=1, BUFFERED=0, HAS_SHA1_LEFT=0),
+    inst("extpf_l_sha1", ON_EXT=2, C04_NPUB=1, C04_EXT_NLINKS=1, C04_EXT_DIRS=1, C04_EXT_SIBALG="{0,0,0,0}", HAS_SHA1_LEFT=1),
+]
+DEPR_MORE = [
+    inst("sig_r_sha1", ON_EXT=0, SB_HAS_CAL=1, SB_CAL_NLINKS=1, SIG_DIRS=0, SB_CAL_SIBALG="{0,0,0,0}", HAS_SHA1_LEFT=0),
+    inst("ext_l_sha1", ON_EXT=1, C04_USERPUB=1, C04_EXT_NLINKS=1, C04_EXT_DIRS=1, C04_EXT_SIBALG="{0,0,0,0}", HAS_SHA1_LEFT=1),
+    inst("ext_rl_sha1_256", ON_EXT=1, C04_USERPUB=1, C04_EXT_NLINKS=2, C04_EXT_DIRS=2, C04_EXT_SIBALG="{0,1,0,0}", HAS_SHA1_LEFT=0),
+    inst("extpf_rl_sha1_256", ON_EXT=2, C04_NPUB=1, C04_EXT_NLINKS=2, C04_EXT_DIRS=2, C04_EXT_SIBALG="{0,1,0,0}", HAS_SHA1_LEFT=0),
+]
 H.append({
     "name": "h_depr", "src": "h_depr.c", "env": ENV + ["ext_seam"], "tus": RULE_TUS,
     "unwind": 6, "timeout": 300, "mem_gb": 8, "object_bits": 12,
@@ -221,19 +244,7 @@ H.append({
                   "KSI_VerificationRule_PublicationsFileExtendedCalendarChainHashAlgorithmDeprecatedAtPubTime",
                   "signatureCalendarChainHashAlgorithmDeprecatedAtPubTime", "calendarChainAggrAlgorithmState", "wasDeprecatedAt", "getNextLink"],
     "bound": "calendar chains of 1..3 links with concrete direction patterns and sibling algorithms SHA-1 / SHA2-256; publication time (64 bit) symbolic; the algorithm status function of hash.c is used as given",
-    "instances": [
-        inst("sig_l_sha1", ON_EXT=0, SB_HAS_CAL=1, SB_CAL_NLINKS=1, SIG_DIRS=1, SB_CAL_SIBALG="{0,0,0,0}", HAS_SHA1_LEFT=1),
-        inst("sig_r_sha1", ON_EXT=0, SB_HAS_CAL=1, SB_CAL_NLINKS=1, SIG_DIRS=0, SB_CAL_SIBALG="{0,0,0,0}", HAS_SHA1_LEFT=0),
-        inst("sig_rl_sha1_256", ON_EXT=0, SB_HAS_CAL=1, SB_CAL_NLINKS=2, SIG_DIRS=2, SB_CAL_SIBALG="{0,1,0,0}", HAS_SHA1_LEFT=0),
-        inst("sig_lrl_256_sha1_sha1", ON_EXT=0, SB_HAS_CAL=1, SB_CAL_NLINKS=3, SIG_DIRS=5, SB_CAL_SIBALG="{1,0,0,0}", HAS_SHA1_LEFT=1),
-        inst("sig_nocal", ON_EXT=0, SB_HAS_CAL=0, HAS_SHA1_LEFT=0),
-        inst("ext_l_sha1", ON_EXT=1, C04_USERPUB=1, C04_EXT_NLINKS=1, C04_EXT_DIRS=1, C04_EXT_SIBALG="{0,0,0,0}", HAS_SHA1_LEFT=1),
-        inst("ext_rl_sha1_256", ON_EXT=1, C04_USERPUB=1, C04_EXT_NLINKS=2, C04_EXT_DIRS=2, C04_EXT_SIBALG="{0,1,0,0}", HAS_SHA1_LEFT=0),
-        inst("ext_lr_256_sha1_l_sha1", ON_EXT=1, C04_USERPUB=1, C04_EXT_NLINKS=3, C04_EXT_DIRS=5, C04_EXT_SIBALG="{1,0,0,0}", HAS_SHA1_LEFT=1),
-        inst("ext_unbuffered", ON_EXT=1, C04_USERPUB=1, BUFFERED=0, HAS_SHA1_LEFT=0),
-        inst("extpf_l_sha1", ON_EXT=2, C04_NPUB=1, C04_EXT_NLINKS=1, C04_EXT_DIRS=1, C04_EXT_SIBALG="{0,0,0,0}", HAS_SHA1_LEFT=1),
-        inst("extpf_rl_sha1_256", ON_EXT=2, C04_NPUB=1, C04_EXT_NLINKS=2, C04_EXT_DIRS=2, C04_EXT_SIBALG="{0,1,0,0}", HAS_SHA1_LEFT=0),
-    ],
+    "instances": DEPR_QUICK, "thorough": {"instances": DEPR_QUICK + DEPR_MORE},
 })
 
 OUTSIDE = ("OpenSSL (X.509 parsing and path building, RSA / PKCS#1 / PKCS#7, digest selection by OID): certificate validity times and the raw-signature "
@@ -275,9 +286,13 @@ H.append({"name": "h_pkiraw", "src": "h_pkiraw.c", "env": ["ctx", "fmt_stub", "l
           "functions": ["KSI_PKITruststore_verifyRawSignature", "KSI_MD2hashAlg"],
           "bound": "all outcomes of the OpenSSL calls (modelled as nondeterministic externals), data <= 4 bytes, signature <= 6 bytes"})
 
-for h in H:
-    if h["name"] not in ("hb_anchor", "h_pkiraw") and "--slice-formula" not in h.get("cbmc_flags", []):
-        h["cbmc_flags"] = h.get("cbmc_flags", []) + ["--slice-formula"]      # measured: 3.4M -> 0.1M variables on the download instances
+for h in H:      # secondary witness points (WITNESS_EXTRA in the harness files) only in the thorough tier
+    if h["name"] != "h_pkiraw":
+        h.setdefault("thorough", {})["defines"] = list(h.get("defines", [])) + ["WITNESS_ALL=1"]
+
+# NOTE: --slice-formula halves the solver time of most rule harnesses, but CBMC then omits the sliced-away nondet assignments from the
+# counterexample trace; the replay protocol (values per tag, in order) gets misaligned and a real failure is reported as MODEL-MISMATCH
+# instead of VIOLATION.  It is therefore not used.
 
 PLAN = {
     "property": "C04",
